@@ -31,7 +31,7 @@ ssize_t getrandom(void *buf, size_t len, unsigned int flags) {
 
 /* ---- I/O fault injection (all off unless S4SIM_IOFAULT is set) -----------------------------------
  * S4SIM_IOFAULT = "key=value;key=value;..." with
- *   sw=<seed>        short writes on stdout: a write of n>1 bytes is cut to 1..n-1 bytes in 3 of 4 calls
+ *   sw=<seed>        short writes on stdout and stderr: a write of n>1 bytes is cut to 1..n-1 bytes in 3 of 4 calls
  *                    (a pure function of seed and the call number)
  *   epipe=<N>        stdout accepts N bytes in total, then every write fails with EPIPE (the reader went away)
  *   enospc=<N>       files under $TMPDIR accept N bytes in total, then every write fails with ENOSPC (disk full)
@@ -85,6 +85,12 @@ static uint64_t io_mix(uint64_t z) {
 
 ssize_t write(int fd, const void *buf, size_t n) {
     io_init();
+    if (fd == 2 && io_sw_seed >= 0 && n > 1) {
+        /* stderr (the summary, error messages): short writes only */
+        uint64_t r = io_mix((uint64_t)io_sw_seed + 0x9E3779B97F4A7C15ULL * (++io_sw_calls));
+        if ((r & 3) != 0) n = 1 + (size_t)((r >> 8) % (n - 1));
+        return syscall(SYS_write, fd, buf, n);
+    }
     if (fd == 1 && (io_sw_seed >= 0 || io_epipe >= 0)) {
         if (io_epipe >= 0) {
             if (io_out_bytes >= (unsigned long long)io_epipe && n > 0) { errno = EPIPE; return -1; }
@@ -110,7 +116,7 @@ ssize_t write(int fd, const void *buf, size_t n) {
 
 ssize_t writev(int fd, const struct iovec *iov, int cnt) {
     io_init();
-    if ((fd == 1 && (io_sw_seed >= 0 || io_epipe >= 0)) || (fd > 2 && io_enospc >= 0 && io_is_tmp(fd))) {
+    if ((fd == 1 && (io_sw_seed >= 0 || io_epipe >= 0)) || (fd == 2 && io_sw_seed >= 0) || (fd > 2 && io_enospc >= 0 && io_is_tmp(fd))) {
         /* a vectored write is allowed to transfer only part of its buffers: hand over the first non-empty one */
         for (int i = 0; i < cnt; i++)
             if (iov[i].iov_len) return write(fd, iov[i].iov_base, iov[i].iov_len);
